@@ -164,6 +164,23 @@ def _map_writes(f):
     return ss, first_w, wpos
 
 
+def rule_cache(ctx, rid='C12.affine'):
+    ctx.rule(rid, 'TempoClock._beats is the rt thread\'s note of the beat it is performing: only _run reads it; every other method takes the '
+                  'current beat through the map from the caller\'s logical time (in nrt nothing writes _beats, after `clock.beats = x` it is stale)')
+    ci = tc(ctx)
+    n = 0
+    for name, f in sorted({**ci.methods, **{k + '.setter': v for k, v in ci.setters.items()},
+                           **{k + '.getter': v for k, v in getattr(ci, 'properties', {}).items()}}.items()):
+        reads = [x for x in walk_local(f.node) if isinstance(x, ast.Attribute) and U.is_self_attr(x, '_beats') and isinstance(x.ctx, ast.Load)]
+        n += 1
+        if name.split('.')[0] == '_run':
+            continue
+        ctx.ob(rid, f'{ci.fq}.{name}:reads-cache', not reads,
+               f'TempoClock.{name} reads self._beats, the beat of the last task the rt thread performed: stale in nrt, after `clock.beats = x`, and '
+               f'from any other thread', f.node, ci.module)
+    ctx.require(n >= 20, rid, f'only {n} TempoClock methods analysed')
+
+
 def rule_rebase(ctx):
     ctx.rule('C12.rebase', 'in tempo.setter/etempo every read of the old map precedes the first write to a map field; the '
                            'new base point (seconds, beats) lies on the old map; tempo is written after the base point; RT '
@@ -375,6 +392,9 @@ def run(ctx):
     c05.rule_taint(sub_c05)
     rule_meter(ctx)
     rule_quant(ctx)
+    rule_cache(ctx)
+    from . import c15 as c15q
+    c15q.rule_quantum(ctx, 'C12.play')
     rule_inv(ctx)
     rule_affine(ctx)
     rule_rebase(ctx)
@@ -382,6 +402,9 @@ def run(ctx):
 
 
 MUTANTS = [
+    dict(rule='C12.affine', name='sched from a task of the clock starts from the cached beat (seed C10-h)', file='sc3/base/clock.py',
+         old="        seconds = _libsc3.main.current_tt._seconds\n        beats = self.secs2beats(seconds)\n        return beats + delta",
+         new="        if _libsc3.main.current_tt._clock is self:\n            beats = self._beats\n        else:\n            beats = self.secs2beats(_libsc3.main.current_tt._seconds)\n        return beats + delta"),
     dict(rule='C12.play', name='a quant of 0 is taken for no quant given (seed C05-h)', file='sc3/base/clock.py',
          old="        if isinstance(quant, cls):\n            pass\n        elif isinstance(quant, (int, float)):",
          new="        if not quant:\n            quant = cls()\n        elif isinstance(quant, cls):\n            pass\n        elif isinstance(quant, (int, float)):"),
